@@ -65,6 +65,10 @@ def _c10_folds(ctx, res):
     r2.check_folds(ctx, res)
 
 
+def _conv_narrowing(ctx, res):
+    r2.check_no_width_narrowing_in_conversions(ctx, res)
+
+
 def _no_narrowing(ctx, res):
     r2.check_no_operand_narrowing(ctx, res)
 
@@ -74,7 +78,7 @@ T_R3 = "CFG dominance / guard-or-forward analysis over MIR in dev and release co
 
 PROPS = {
     "C01": {
-        "clauses": [fam("Add", "Sub"), signed("Add", "Sub"), both(r3.check_underflow_asserts), r3.check_checked_sub, r3.check_add2_carry_used, r3.check_underflow_check_sees_all_digits, r4.check_block_loops, r4.check_block_loop_callers, r5check.check_arithmetic({"Add", "Sub"}, 30)],
+        "clauses": [fam("Add", "Sub"), signed("Add", "Sub"), both(r3.check_underflow_asserts), r3.check_checked_sub, r3.check_add2_carry_used, r3.check_underflow_check_sees_all_digits, r3.check_panic_site_table, r4.check_block_loops, r4.check_block_loop_callers, r5check.check_arithmetic({"Add", "Sub"}, 30)],
         "not_decided": "the scalar tail's adc/sbb arithmetic, carry propagation into the longer operand, result growth",
         "level_text": "Decides structural necessary conditions for every input: the two x86_64 block loops are well-formed carry chains (template data flow, addressing, "
         "counter = len/5, carry preserved to setc, add/sub agree) and hand (carry, done) to the scalar tail; all + and - operator forms forward with operands in order (never swapped for -), "
@@ -131,7 +135,7 @@ PROPS = {
         "technique": "interprocedural field read-set analysis over MIR (necessity rule: a result that depends on a component must read it)",
     },
     "C08": {
-        "clauses": [r5check.check_conversions, r5check.check_tryfrom_err_carries_input, r5check.check_float_guard],
+        "clauses": [r5check.check_conversions, r5check.check_tryfrom_err_carries_input, r5check.check_float_guard, _conv_narrowing],
         "not_decided": "digit accumulation / overflow position in BigUint::to_uN, high_bits_to_u64 and float rounding (ties-to-even, infinity cut-off), from_f64's shift arithmetic, two's-complement magnitude arithmetic of From<iN>",
         "level_text": "Decides the sign-gate and ownership clauses for every input: BigInt::to_{i64,i128,u64,u128} return Some(a) exactly when a fits, including the MIN edge "
         "(|a| compared with 2^63 / 2^127 read from MIR), negative -> None for unsigned targets, zero -> Some(0); BigUint::from_iN rejects negatives; "
@@ -140,14 +144,14 @@ PROPS = {
         "technique": "abstract interpretation over the sign domain (R5) + MIR def-use checks of the error closures + guard dominance",
     },
     "C09": {
-        "clauses": [r9.check_iterators, r9.check_sign_readers, r5check.check_constructors, r1.check_biguint_normal_form],
+        "clauses": [r9.check_iterators, r9.check_iterator_write_sets, r9.check_sign_readers, r5check.check_constructors, r1.check_biguint_normal_form],
         "not_decided": "byte regrouping arithmetic, two's-complement byte loops, iterator value sequences beyond the read-set condition; importer normalisation (planned R1)",
         "level_text": "Decides: every U32Digits cursor method (next, next_back, len, last, count, size_hint) consults all three cursor fields, directly or through the cursor methods "
         "it calls (the rule that exposed the U32Digits::last defect); U64Digits methods delegate to the slice iterator; signed-byte exporters read the sign.",
         "technique": "interprocedural field read-set analysis over MIR (necessity rule)",
     },
     "C10": {
-        "clauses": [_c10_forwarders, _c10_signed, _c10_folds, _no_narrowing, r5check.check_arithmetic(None, 85), r5check.check_powers, r5check.check_upow],
+        "clauses": [_c10_forwarders, _c10_signed, _c10_folds, _no_narrowing, r3.check_panic_site_table, r5check.check_arithmetic(None, 85), r5check.check_powers, r5check.check_upow],
         "not_decided": "digit splitting/padding inside the unsigned scalar leaves and the digit arithmetic of the leaf implementations",
         "level_text": "Every one of the ~1286 operator impl bodies is classified from its MIR: ~970 are proven pure forwarders (operands reach the "
         "callee in order - swapped only for commutative operators -, scalar promotions are value-preserving casts, the callee's result is the result, "
@@ -171,7 +175,7 @@ PROPS = {
         "technique": T_R2,
     },
     "C13": {
-        "clauses": [r3.check_division_sites, r5check.check_helpers],
+        "clauses": [r3.check_division_sites, r3.check_gcd_zero_cases, r5check.check_helpers],
         "not_decided": "Stein's algorithm, extended_gcd (num-integer), arithmetic of the multiple-of helpers",
         "level_text": "Decides: lcm / gcd_lcm / extended_gcd_lcm divide only by a gcd shown non-zero by a dominating test (own zero test, or the joint zero test of exactly the "
         "gcd's two arguments); is_multiple_of takes the remainder only behind other != 0 and answers self == 0 otherwise.",
@@ -192,6 +196,7 @@ PROPS = {
             r3.check_parity_dispatch,
             r3.check_inventory,
             r3.check_panic_site_table,
+            r9.check_iterator_write_sets,
         ],
         "not_decided": "unreachability of internal/debug assertions, primitive arithmetic overflow in debug builds, index bounds, termination, faults other than division by zero",
         "level_text": "Decides the guard discipline for every input in both profiles: every documented failure (zero divisor, underflow, negative shift, radix range, zero "
